@@ -306,16 +306,17 @@ def _tokname(t):
     return t[1] if t[0] in ("kw", "p") else t[0]
 
 
-def layout_cases(keys, stride=1, offset=0, max_tokens=None):
+def layout_cases(keys, stride=1, offset=0, big_factor=1):
+    """every gap with index = offset (mod stride); programs with more than SMALL_FILE_TOKENS tokens use a
+    big_factor times wider stride (they cost up to 0.4 s per evaluation)."""
     out = []
     corpus = layout_corpus()
     for key in keys:
         src = corpus[key]
         gs = gaps(src)
-        if max_tokens is not None and len(gs) - 1 > max_tokens:
-            continue
+        st = stride * (big_factor if len(gs) - 1 > SMALL_FILE_TOKENS else 1)
         for gi, g in enumerate(gs):
-            if stride > 1 and gi % stride != offset % stride:
+            if st > 1 and gi % st != offset % st:
                 continue
             for name, text in TRIVIA:
                 if not trivia_allowed(name, text, g, src):
@@ -764,8 +765,11 @@ def strata():
     for i in range(n):
         st[i].append(_layout_space("c13_layout_frag2_%02d" % i, lambda i=i: layout_cases(_frag_keys(False), stride=NPART, offset=i),
                                    "%s; composed fragments, gaps congruent %d mod %d" % (_L_RULE, i, NPART), "gaps/%d x 5" % NPART))
-        st[i].append(_layout_space("c13_layout_file_%02d" % i, lambda i=i: layout_cases(_file_keys(), stride=NPART, offset=i),
-                                   "%s; test files and README snippets, gaps congruent %d mod %d" % (_L_RULE, i, NPART), "gaps/%d x 5" % NPART))
+        st[i].append(_layout_space("c13_layout_file_%02d" % i,
+                                   lambda i=i: layout_cases(_file_keys(), stride=2 * NPART, offset=i, big_factor=4),
+                                   "%s; test files and README snippets, gaps congruent %d mod %d (mod %d for the three files with more "
+                                   "than %d tokens)" % (_L_RULE, i, 2 * NPART, 8 * NPART, SMALL_FILE_TOKENS),
+                                   "gaps/%d x 5 (half of all gaps over all strata)" % (2 * NPART)))
         st[i].append(_layout_space("c13_layout_pairs_%02d" % i, lambda i=i: layout_pair_cases(_frag_keys(True), part=i, nparts=NPART),
                                    "two newlines at two gaps (2 deviations), fragments with < 40 tokens, part %d of %d" % (i, NPART),
                                    "C(gaps,2)/%d" % NPART))
